@@ -64,6 +64,11 @@ Theorem canon_sorted : forall v, deep_ordered (sort_deep v).
 Proof. exact canon_sorted_proof. Qed.
 Print Assumptions canon_sorted.
 
+(* with distinct keys (a JSON object proper; every Python dict) the order is strict *)
+Theorem canon_sorted_strict : forall v, nodup_keys v -> keys_scalar v -> deep_sorted (sort_deep v).
+Proof. exact canon_sorted_strict_proof. Qed.
+Print Assumptions canon_sorted_strict.
+
 (* independence from member insertion order *)
 Theorem canon_perm : forall ms ms', Permutation ms ms' -> NoDup (map fst ms) ->
   canon (JObj ms) = canon (JObj ms').
@@ -118,3 +123,8 @@ Proof.
   - vm_compute. reflexivity.
   - vm_compute. reflexivity.
 Qed.
+
+(* NaN and the infinities are refused wherever they occur in the value *)
+Theorem canon_refuses_nonfinite : forall v, nonfinite v -> forall t, canon v <> JOk t.
+Proof. exact canon_refuses_nonfinite_proof. Qed.
+Print Assumptions canon_refuses_nonfinite.
